@@ -30,7 +30,7 @@ m = {
     "engines": [{"name": "arkcheck", "path": "checker/", "serves_properties": [c['property_id'] for c in checks],
                  "kind_free_text": "repository-specific static analyser (go/packages + go/types + go/cfg): path rules (must-precede, never-after, pairing with path-sensitive guards), field/sibling/wiring agreement, interval analysis, lockset, determinism, build-configuration comparison"}],
     "checks": checks,
-    "notes": "Static analysis only; every verdict is computed from /repo's current source on each run. quick = default build configuration (all four for C18/C20); thorough = all four build-tag configurations. Findings are keyed by rule + construct; known_findings.json lists recorded defects. See DESIGN.md.",
+    "notes": "Static analysis only; every verdict is computed from /repo's current source on each run. quick = default build configuration (all four for C18/C20); thorough = all four build-tag configurations. Findings are keyed by rule + construct; known_findings.json lists recorded defects (none open; fourteen repaired by fix: commits in /repo, each with a regression diff that the checks report again). thorough additionally replays the stored breaking changes against scratch copies as checker self-validation (informational). See DESIGN.md.",
     "not_applicable": na,
 }
 json.dump(m, open('/verif/MANIFEST.json', 'w'), indent=1)
